@@ -22,6 +22,8 @@ func init() {
 	observers["C08.cmd"] = obsC08Cmd
 	gens["C08"] = genC08
 	gens["C08cmd"] = genC08Cmd
+	observers["C08.multi"] = obsC08Multi
+	gens["C08multi"] = genC08Multi
 }
 
 func c08Parse(text string) (directives.File, error) {
@@ -39,9 +41,10 @@ func c08Tree(f directives.File) string {
 }
 
 // input: hex text.  observed:
-//   UNPARSEABLE
-//   OK <hex of formatted> ; <tree of the input> ; <tree of the formatted text | REPARSE-ERR> ; <same | hex of format(formatted)>
-//   FORMAT-ERR <msg> | PANIC:<msg>
+//
+//	UNPARSEABLE
+//	OK <hex of formatted> ; <tree of the input> ; <tree of the formatted text | REPARSE-ERR> ; <same | hex of format(formatted)>
+//	FORMAT-ERR <msg> | PANIC:<msg>
 func obsC08Format(in string) (res string) {
 	defer func() {
 		if r := recover(); r != nil {
@@ -134,6 +137,68 @@ func genC08Cmd(out *caseWriter, seed uint64, n int, _ []string) error {
 	for i := 0; i < n; i++ {
 		r := newRng(seed, "C08cmd", i)
 		out.add(fmt.Sprintf("C08c-%d-%d", seed, i), "C08.cmd", hex.EncodeToString(c08Text(r)))
+	}
+	return nil
+}
+
+// op C08.multi: `knut format f0 f1 ... fn` in ONE invocation, run twice in a row on the same directory (what
+// `knut format *.knut` does every time it is used): after the first run every parseable file must hold its formatted
+// text, after the second run it must hold the same bytes (idempotence at the level of the command; seeded change
+// C08d-pooled-buffer-early-return let an already formatted file leave its text in a reused buffer, so the NEXT file
+// was rewritten with foreign directives - only in the second run, only with fewer workers than files).
+// input "<gomaxprocs> | <hex>,<hex>,..."   observed "<class1>/<class2> | <hex after run 1>,... | <hex after run 2>,..."
+func obsC08Multi(in string) string {
+	p := strings.SplitN(in, " | ", 2)
+	var out string
+	withTempDir(func(dir string) {
+		var paths []string
+		for i, h := range strings.Split(p[1], ",") {
+			raw, _ := hex.DecodeString(h)
+			paths = append(paths, writeFile(dir, fmt.Sprintf("j%02d.knut", i), string(raw)))
+		}
+		env := []string{"GOMAXPROCS=" + p[0]}
+		read := func() string {
+			var hs []string
+			for _, f := range paths {
+				b, err := os.ReadFile(f)
+				if err != nil {
+					hs = append(hs, "MISSING")
+				} else {
+					hs = append(hs, hex.EncodeToString(b))
+				}
+			}
+			return strings.Join(hs, ",")
+		}
+		r1 := runKnut(knutBin(), dir, env, 30*time.Second, append([]string{"format"}, paths...)...)
+		a1 := read()
+		r2 := runKnut(knutBin(), dir, env, 30*time.Second, append([]string{"format"}, paths...)...)
+		out = fmt.Sprintf("%s/%s | %s | %s", r1.class(), r2.class(), a1, read())
+	})
+	return out
+}
+
+func genC08Multi(out *caseWriter, seed uint64, n int, _ []string) error {
+	for i := 0; i < n; i++ {
+		r := newRng(seed, "C08multi", i)
+		k := r.rangeInt(2, 7)
+		var hs []string
+		for q := 0; q < k; q++ {
+			b := c08Text(r)
+			if len(b) > 4000 {
+				b = b[:4000]
+			}
+			if r.chance(40) {
+				// a file that is formatted already (the previous `knut format` left it so)
+				if f, err := c08Parse(string(b)); err == nil {
+					var fb bytes.Buffer
+					if syntax.FormatFile(&fb, f) == nil {
+						b = fb.Bytes()
+					}
+				}
+			}
+			hs = append(hs, hex.EncodeToString(b))
+		}
+		out.add(fmt.Sprintf("C08m-%d-%d", seed, i), "C08.multi", fmt.Sprintf("%d | %s", pick(r, []int{1, 1, 2, 16}), strings.Join(hs, ",")))
 	}
 	return nil
 }
